@@ -138,7 +138,7 @@ def handle (codes : List (Nat × List Nat)) (line : String) : String :=
     | some code, some nargs, some loop, some depth, some fuel =>
       let o : Oracle := fun _ _ => if orc.startsWith "sat" then .sat else .unknown
       let static := orc.endsWith "+static"
-      let res := runC drvSimp o { loop, depth, balances := true } (mkEnv nargs static) ((MAIN, code) :: codes) MAIN fuel
+      let res := runC drvSimp o { loop, depth, balances := true, sha3 := true, create := true } (mkEnv nargs static) ((MAIN, code) :: codes) MAIN fuel
       let ends := (res.ends.map fun e => outName e.e).toArray.qsort (· < ·) |>.toList
       let e := if ends.isEmpty then "-" else ",".intercalate ends
       s!"ends={e} bounded={res.boundedLoops.length} depthcut={if res.depthCut then 1 else 0} fuelout={if res.outOfFuel then 1 else 0}"
@@ -156,18 +156,27 @@ def handle (codes : List (Nat × List Nat)) (line : String) : String :=
     | some code, some nargs, some loop, some depth, some fuel, some args, some caller, some origin, some value =>
       let o : Oracle := fun _ _ => if orc.startsWith "sat" then .sat else .unknown
       let static := orc.endsWith "+static"
-      let res := runC drvSimp o { loop, depth, balances := true } (mkEnv nargs static) ((MAIN, code) :: codes) MAIN fuel
+      let res := runC drvSimp o { loop, depth, balances := true, sha3 := true, create := true } (mkEnv nargs static) ((MAIN, code) :: codes) MAIN fuel
       let bvVal (x : String) (_ : Nat) : Nat :=
+        if x = "f_sha3_0" then Keccak.keccak256 [] else
         if x = "msg_sender" then caller else if x = "tx_origin" then origin else if x = "msg_value" then value
         else if x.startsWith "a" then args.getD ((x.drop 1).toNat?.getD 0) 0 else 0
       -- the initial balance array `balance_0` (absent accounts: 0); `balance_00` is the empty array
+      -- `f_sha3_<bits>` is Keccak-256 of the `bits/8` bytes
       let uf1Val (name : String) (_ : Nat) (a : Nat) : Nat :=
-        if name = "balance_0" then ((balPairs.find? fun kv => kv.1 == a).map (·.2)).getD 0 else 0
+        if name = "balance_0" then ((balPairs.find? fun kv => kv.1 == a).map (·.2)).getD 0
+        else if name.startsWith "f_sha3_" then
+          Keccak.keccak256 (Evm.natToBytes (((name.drop 7).toNat?.getD 0) / 8) a)
+        else 0
       let I := Interp.std bvVal (fun _ => false) (fun _ _ _ _ => 0) uf1Val
       let hex2 (n : Nat) : String :=
         let d (k : Nat) : Char := if k < 10 then Char.ofNat (48 + k) else Char.ofNat (87 + k)
         String.ofList [d (n / 16 % 16), d (n % 16)]
-      let sat := res.ends.filter fun e => e.e.st.path.all fun c => c.eval I
+      -- the injectivity witnesses `f_inv_sha3_*` are assumed to exist (as the harness' evaluator does)
+      let isInv (c : B) : Bool := match c with
+        | .cmp .eq (.uf1 n _ _) _ => n.startsWith "f_inv_sha3"
+        | _ => false
+      let sat := res.ends.filter fun e => e.e.st.path.all fun c => isInv c || c.eval I
       -- storage maps evaluated: per account (by address), the newest binding of each slot, zero values dropped
       let hexN (n : Nat) : String := String.ofList (Nat.toDigits 16 n)
       let stoStr (pre : String) (σ : List (Nat × T)) : String :=
@@ -190,10 +199,14 @@ def handle (codes : List (Nat × List Nat)) (line : String) : String :=
         | some kv => kv.2.eval I
         | none => uf1Val "balance_0" 256 a
       let balStr (chain : List (T × T)) : String :=
-        String.join (([MAIN, 0x2000, 0x3000, 0x4000, 5] : List Nat).filterMap fun (a : Nat) =>
+        String.join (([MAIN, 0x2000, 0x3000, 0x4000, 5, 0xaaaa0002, 0xaaaa0003, 0xaaaa0004] : List Nat).filterMap fun (a : Nat) =>
           if balAt chain a == 0 then none else some s!"B{hexN a}={hexN (balAt chain a)};")
+      -- the accounts created on the path, by address: `C<addr>=<code hex>;`
+      let crStr (cr : List (Nat × List Nat)) : String :=
+        let addrs := (cr.map (·.1)).eraseDups.toArray.qsort (· < ·) |>.toList
+        String.join (addrs.map fun a => s!"C{hexN a}=" ++ String.join (((codeOf cr a).getD []).map hex2) ++ ";")
       let names := (sat.map fun e =>
-        s!"{outName e.e}:{String.join (e.e.data.map fun b => hex2 (b.eval I))}:{allSto e.stores}{logStr e.logs}{balStr e.bal}").toArray.qsort (· < ·) |>.toList
+        s!"{outName e.e}:{String.join (e.e.data.map fun b => hex2 (b.eval I))}:{allSto e.stores}{logStr e.logs}{balStr e.bal}{crStr e.e.st.created}").toArray.qsort (· < ·) |>.toList
       s!"sat={if names.isEmpty then "-" else ",".intercalate names}"
     | _, _, _, _, _, _, _, _, _ => "bad-op"
   | ["steps", code, nargs, loop, fuel, orc] =>
@@ -204,9 +217,9 @@ def handle (codes : List (Nat × List Nat)) (line : String) : String :=
       let o : Oracle := fun _ _ => if orc.startsWith "sat" then .sat else .unknown
       let static := orc.endsWith "+static"
       let cs := (MAIN, code) :: codes
-      let res0 := runC drvSimp o { loop, depth := 0, balances := true } (mkEnv nargs static) cs MAIN fuel
+      let res0 := runC drvSimp o { loop, depth := 0, balances := true, sha3 := true, create := true } (mkEnv nargs static) cs MAIN fuel
       if res0.outOfFuel then "steps=0" else
-      let cut (d : Nat) : Bool := (runC drvSimp o { loop, depth := d, balances := true } (mkEnv nargs static) cs MAIN fuel).depthCut
+      let cut (d : Nat) : Bool := (runC drvSimp o { loop, depth := d, balances := true, sha3 := true, create := true } (mkEnv nargs static) cs MAIN fuel).depthCut
       let rec up (d : Nat) : Nat → Nat
         | 0 => d
         | k + 1 => if cut d then up (2 * d) k else d
